@@ -142,6 +142,7 @@ def _first(nlimbs):
 
 def evaluate(facts, fn, unit, bits, scalars, nlimbs=1):
     ex = SX.Engine(facts, unit, c07_dft._models(_first(nlimbs)), env={"MODULUS_BIT_SIZE": bits}, max_paths=4, max_depth=10, inline_limit=800, max_visits=400000)
+    ex.strict_flow = True
     n = len(scalars)
     bases = SX.Obj(adt="array", fields={i: Q.var("P%d" % i) for i in range(n)})
     sc = SX.Obj(adt="array", fields={i: mkbig(k, nlimbs) for i, k in enumerate(scalars)})
